@@ -126,6 +126,66 @@ func hC06(n, prefix, L, vlen, syncMode int, midOp bool) {
 	vCover("C06.done")
 }
 
+// hC06compact: synced prefix, L unsynced symbolic writes, then Compact with a
+// power failure at every mutating file-system call inside it (or right after).
+func hC06compact(n, L, vlen int) {
+	pfs := &powerFS{inner: fs.Mem, segsOnly: true}
+	rec := 10 + 8 + vlen
+	dir := "c06c"
+	db, err := Open(dir, smallOpts(pfs, 2, rec))
+	vAssert(err == nil, "C06c.open")
+	if err != nil {
+		return
+	}
+	r := newRef(n, 8)
+	d := &durTrack{n: n}
+	d.checkpoint(r)
+	for i := 0; i < n; i++ {
+		applyOp(db, r, 0, i, vlen, "C06c.prefix")
+	}
+	vAssert(db.Sync() == nil, "C06c.sync")
+	d.checkpoint(r)
+	for step := 0; step < L; step++ {
+		var code int
+		if step == 0 {
+			code = vCase() % (2 * n)
+		} else {
+			code = vChoice("op", 2*n)
+		}
+		op, k := decodeOp(code, n)
+		var v []byte
+		if op == 0 {
+			v = vBytes("val", vlen)
+		}
+		refApply(r, op, k, v)
+		d.note(op, k, v)
+		dbApply(&db, dir, nil, r, op, k, v, "C06c.step")
+	}
+	pfs.armed = true
+	failed := vRunCrashable(func() {
+		cr, err := db.Compact()
+		vAssert(err == nil, "C06c.compact.err")
+		if cr.CompactedSegments > 1 {
+			vCover("C06c.compacted-several-segments")
+		}
+	})
+	if failed {
+		vCover("C06c.power-failure-inside-compaction")
+	}
+	pfs.armed = false
+	pfs.powerFail()
+	db2, err := Open(dir, smallOpts(fs.Mem, 2, rec))
+	vAssert(err == nil, "C06c.open-after-power-loss-succeeds")
+	if err != nil {
+		return
+	}
+	d.acceptable(db2, "C06c.after")
+	checkSelfConsistent(db2, r, "C06c.after")
+	vCover("C06c.done")
+}
+
+func H_C06_compact() { hC06compact(2, 2, 2) }
+
 func H_C06_q()     { hC06(2, 2, 3, 2, 0, false) }
 func H_C06_sw()    { hC06(2, 1, 2, 2, 1, false) }
 func H_C06_t()     { hC06(2, 2, 4, 2, 0, false) }
@@ -202,6 +262,53 @@ func hC09(n, prefix, L, vlen, syncMode int, midOpen bool) {
 	checkItems(db2, r, "C09.after")
 	vCover("C09.done")
 }
+
+// hC09s2: the closing session is the SECOND one on the directory (index and
+// metadata files already exist when it starts): prefix, Close, Open, L steps,
+// Close, power failure.
+func hC09s2(n, L, vlen int) {
+	pfs := &powerFS{inner: fs.Mem}
+	rec := 10 + 8 + vlen
+	dir := "c09b"
+	mk := func() *Options { return smallOpts(pfs, 2, rec) }
+	db, err := Open(dir, mk())
+	vAssert(err == nil, "C09b.open")
+	if err != nil {
+		return
+	}
+	r := newRef(n, 8)
+	for i := 0; i < n; i++ {
+		applyOp(db, r, 0, i, vlen, "C09b.prefix")
+	}
+	vAssert(db.Close() == nil, "C09b.close1")
+	db, err = Open(dir, mk())
+	vAssert(err == nil, "C09b.open2")
+	if err != nil {
+		return
+	}
+	for step := 0; step < L; step++ {
+		var code int
+		if step == 0 {
+			code = vCase() % (2*n + 1)
+		} else {
+			code = vChoice("op", 2*n+1)
+		}
+		op, k := decodeOp(code, n)
+		applyOp(db, r, op, k, vlen, "C09b.step")
+	}
+	vAssert(db.Close() == nil, "C09b.close2")
+	pfs.powerFail()
+	db2, err := Open(dir, smallOpts(fs.Mem, 2, rec))
+	vAssert(err == nil, "C09b.open-after-power-loss-succeeds")
+	if err != nil {
+		return
+	}
+	checkReads(db2, r, "C09b.after")
+	checkItems(db2, r, "C09b.after")
+	vCover("C09b.done")
+}
+
+func H_C09_s2() { hC09s2(2, 1, 2) }
 
 func H_C09_q()   { hC09(2, 2, 1, 2, 0, false) }
 func H_C09_sw()  { hC09(2, 2, 1, 2, 1, false) }
